@@ -78,8 +78,8 @@ fn serve(listener: TcpListener, sc: Value, stop: Arc<AtomicBool>) {
         s.set_nonblocking(false).ok();
         s.set_nodelay(true).ok();
         conn_no += 1;
-        if phase == "upload" {
-            // accept but never read: the client's upload fills the socket buffers
+        if phase == "upload" || phase.ends_with("-handshake") {
+            // accept but never read: the client's upload fills the socket buffers / its TLS ClientHello is never answered
             hold(&mut s, "silent", b"x", interval, stall, &stop);
             continue;
         }
@@ -184,7 +184,12 @@ pub fn run(sc: &Value) -> Vec<String> {
                 ps = ps.https_proxy(format!("http://127.0.0.1:{}", p.proxy_port).parse::<url::Url>().unwrap());
             }
             let what = if phase.ends_with("head") { "stall-head" } else if gs(sc, "mode") == "drip" { "drip-body" } else { "stall-body" };
-            format!("https://good.test:{}/{}", tport, what)
+            if phase.ends_with("-handshake") {
+                // the peer accepts the connection and never answers the ClientHello (this scenario's own listener)
+                format!("https://good.test:{}/x", port)
+            } else {
+                format!("https://good.test:{}/{}", tport, what)
+            }
         } else {
             format!("http://127.0.0.1:{}/start", port)
         };
@@ -206,6 +211,21 @@ pub fn run(sc: &Value) -> Vec<String> {
         };
         let mut rp = if phase == "upload" {
             b.bytes(vec![0x55u8; 24 << 20]).send()
+        } else if gu(sc, "prepareDelayMs") > 0 || gu(sc, "resendAfterMs") > 0 {
+            // the overall timeout belongs to a send() call: a request prepared ahead of time, or sent a second time
+            // later, has the whole of T again
+            let mut p = b.prepare();
+            if gu(sc, "prepareDelayMs") > 0 {
+                std::thread::sleep(Duration::from_millis(gu(sc, "prepareDelayMs") as u64));
+            }
+            if gu(sc, "resendAfterMs") > 0 {
+                let first = p.send().map(|r| r.status().as_u16());
+                if first.is_err() {
+                    first.map(|_| ()).map_err(|e| classify(&e).0)?;
+                }
+                std::thread::sleep(Duration::from_millis(gu(sc, "resendAfterMs") as u64));
+            }
+            p.send()
         } else {
             b.send()
         }
@@ -310,6 +330,20 @@ pub fn generate(seed: u64, tier: &str, release: bool) -> Vec<Value> {
                 out.push(json!({"id":format!("rt-{}", id),"phase":phase,"mode":mode,"T":6000,"R":300}));
                 id += 1;
             }
+        }
+    }
+    // prompt peers, but the request was prepared (or first sent) more than T ago
+    for (pd, ra) in [(700usize, 0usize), (0, 700), (450, 450)] {
+        for body in ["length", "chunked"] {
+            out.push(json!({"id":format!("rt-{}", id),"phase":"none","mode":"silent","T":400,"R":2000,"body":body,"prepareDelayMs":pd,"resendAfterMs":ra,"postReads":1}));
+            id += 1;
+        }
+    }
+    // a peer that is silent during the TLS handshake itself: directly and inside a CONNECT tunnel
+    for phase in ["tls-handshake", "tunnel-handshake"] {
+        for (t, rr) in [(500usize, 2000usize), (800, 300), (0, 300)] {
+            out.push(json!({"id":format!("rt-{}", id),"phase":phase,"mode":"silent","T":t,"R":rr}));
+            id += 1;
         }
     }
     // stalls after a TLS handshake: directly and inside a CONNECT tunnel
